@@ -33,7 +33,12 @@
 //!
 //! See the MDK documentation for Android-specific setup instructions.
 
+#[cfg(not(feature = "verif-hooks"))]
 use std::sync::{Mutex, OnceLock};
+#[cfg(feature = "verif-hooks")]
+use std::sync::OnceLock;
+#[cfg(feature = "verif-hooks")]
+use crate::verif::sync::Mutex;
 
 use keyring_core::{Entry, Error as KeyringError};
 
@@ -98,6 +103,8 @@ pub fn get_or_create_db_key(service_id: &str, db_key_id: &str) -> Result<Encrypt
         return Ok(config);
     }
 
+    #[cfg(feature = "verif-hooks")]
+    crate::verif::tick(crate::verif::Point::Open("keyring:before_generate"));
     // Key doesn't exist, generate a new one
     tracing::info!(
         service_id = service_id,
@@ -107,6 +114,8 @@ pub fn get_or_create_db_key(service_id: &str, db_key_id: &str) -> Result<Encrypt
 
     let config = EncryptionConfig::generate()?;
 
+    #[cfg(feature = "verif-hooks")]
+    crate::verif::tick(crate::verif::Point::Open("keyring:before_store"));
     // Store the new key
     let entry = Entry::new(service_id, db_key_id).map_err(|e| {
         Error::Keyring(format!(
